@@ -33,7 +33,7 @@ EXPLANATION = (
     ' (5) addSubWeights only loads, stores and applies wrapping 16-bit add / subtract in matching numbers (no clamp, no saturating intrinsic) in every build variant, and the full refresh uses the same routine as the incremental update.'
     ' Added later; (7) the classification pass endGameEval<false>, whose result is cached under the material signature alone, branches only on functions of the material (signature, sums, piece counts, presence tests; sums of square-restricted counts over a partition of the board count as piece counts).'
     ' Added later; (8) no right shift of a signed value that may be negative in Evaluate / EndGameEval (reaching definitions prove non-negativity).'
-    ' Added later; (9) computeL1WB keeps an accumulator only while the king square is unchanged, or under a key that is as fine as getIndex (both interpreted for all 64 x 10 x 64 x 2 arguments). (3, strengthened) no lossy operator (abs, division, shift, mask, narrowing conversion) stands between the contempt and the key term.')
+    ' Added later; (9) computeL1WB keeps an accumulator only while the king square is unchanged, or under a key that is as fine as getIndex (both interpreted for all 64 x 10 x 64 x 2 arguments). (3, strengthened) no lossy operator (abs, division, shift, mask, narrowing conversion) stands between the contempt and the key term. (10) NNEvaluator::popState pops a level or invalidates the remaining one (forceFullEval) on every path.')
 UNDECIDED = ('numerical equality of incremental and from-scratch network outputs and of the SIMD kernels beyond the group-structure clause 5 (value-level), '
              'left-right mirror symmetry of the network, endgame cases that are written inline rather than as helper calls (listed as not covered).')
 ASSUMPTIONS = ['position domain: at most 30 non-king men', 'the helper evaluations (k*Eval) themselves are written from white\'s point of view']
@@ -54,6 +54,7 @@ def run(fb, rep, tier):
     c7_classification_is_material(fb, rep)
     c8_odd_arithmetic(fb, rep)
     c9_accumulator_reuse(fb, rep)
+    c10_pop_restores_or_invalidates(fb, rep)
 
 
 # SIMD kernels are selected by compile definitions: the thorough tier re-runs the rules on these builds too
@@ -1080,3 +1081,31 @@ def c9_accumulator_reuse(fb, rep):
             return
         rep.ob(clause, 'K10 reuse/index agreement', 'computeL1WB keeps an accumulator only while every weight-row index is unchanged by the king\'s move', not bad, R.site(f, e),
                'reuse test through %s; %s' % (g.sname, bad or 'as fine as getIndex for all 64 x 10 x 64 x 2 arguments'), f.sname)
+
+
+# ----------------------------------------------------------------------------- .10
+
+def c10_pop_restores_or_invalidates(fb, rep):
+    """K2 take-back of the incremental state.  The accumulator stack has one level per move made since the evaluator was last
+    (re)connected or the position was assigned; a take-back pops one level.  A take-back of a move made *before* that point
+    finds the stack empty: the level that remains describes the position after that move, not the one now on the board, so
+    it has to be invalidated (recomputed from scratch at the next evaluation).  On every path through popState() the stack
+    level is decremented or the full recomputation is requested - never neither."""
+    clause = 'C07.10'
+    f = fb.find1('NNEvaluator::popState')
+    if rep.need(clause, f, 'NNEvaluator::popState') is None:
+        return
+
+    def restores(e):
+        if e is None:
+            return False
+        if e.get('k') == 'incdec' and e.get('op') == '--' and (ap(e.get('e')) or '').endswith('.stackTop'):
+            return True
+        if e.get('k') == 'asg' and (ap(e.get('l')) or '').endswith('.stackTop'):
+            return True
+        return e.get('k') == 'call' and cname(e) == 'NNEvaluator::forceFullEval'
+    n = sum(1 for _, _, e in f.events() if restores(e))
+    rep.floor(clause, 'level decrements / invalidations in popState', n, 1)
+    w = f.path_avoiding((f.entry, -1), R.at_exit, restores)
+    rep.ob(clause, 'K2 must-pass-through', 'popState: every path pops a level or invalidates the remaining one (forceFullEval)', w is None, f.where,
+           '' if w is None else 'path that does neither: ' + ' -> '.join('B%s@%s' % x for x in w[-6:]), f.sname)
